@@ -24,7 +24,12 @@ DInit == [ open    |-> {},        \* handles open
 Init == l = 1 /\ d = DInit /\ bad = <<>> /\ nbad = 0 /\ done = FALSE
 Ev == Tr[l]
 If(x, name) == IF x THEN <<name>> ELSE <<>>
-Flag(rules) == /\ bad' = (IF Len(bad) < 100 THEN bad \o [i \in 1..Len(rules) |-> <<rules[i], l>>] ELSE bad)
+\* at most 20 entries per rule are kept (so that frequent refusals of one rule never hide another rule's)
+Count(b, name) == Cardinality({j \in 1..Len(b) : b[j][1] = name})
+RECURSIVE AddAll(_, _, _)
+AddAll(b, rules, i) == IF i > Len(rules) THEN b
+                       ELSE AddAll(IF Count(b, rules[i]) < 20 THEN Append(b, <<rules[i], l>>) ELSE b, rules, i + 1)
+Flag(rules) == /\ bad' = AddAll(bad, rules, 1)
                /\ nbad' = nbad + Len(rules)
 NoFlag == bad' = bad /\ nbad' = nbad
 H(e) == IF e.hd \in 1..MaxH THEN e.hd ELSE 0
